@@ -181,6 +181,10 @@ fn cmd_gen(m: BTreeMap<String, String>) -> i32 {
         return 0;
     }
     let root = tests_root(&m);
+    // `--no-walk`: skip the fault-free typed walks that guide fault placement (library code run by
+    // the generator). The driver asks for this when a campaign worker died inside such a walk:
+    // font and surgery of the run are decided before any walk, so they come out the same.
+    gen::set_no_walk(m.contains_key("no-walk"));
     let mut corpus = Corpus::new(&root);
     let mut g = match gen::Generator::new(&root, &mut corpus) {
         Ok(g) => g,
@@ -259,6 +263,10 @@ fn cmd_campaign(m: BTreeMap<String, String>) -> i32 {
             }
             let run = start + k * stride;
             k += 1;
+            // the generator runs library code too (fault-free typed walks that guide fault
+            // placement): op index -1 tells the driver that a crash belongs to that phase
+            opts.run_index = run;
+            exec::write_status(&mut opts, -1);
             let trace = match g.generate(&prop, seed, run, &mut corpus) {
                 Ok(t) => t,
                 Err(e) => {
